@@ -223,7 +223,7 @@ Definition enc_cons (c : ncons) : pcons * str :=
 Definition zmem (t : Z) (l : list Z) : bool := existsb (Z.eqb t) l.
 
 Definition pattern_movement (rc : chain) (tag : Z) (prev : list Z) : Z * list pcons * str :=
-  if zmem tag prev then (tag, [], dec_z tag ++ [58]) else
+  if (0 <=? tag)%Z && zmem tag prev then (tag, [], dec_z tag ++ [58]) else       (* only a named tag can have been matched before *)
   let l := map enc_cons (filter (fun c => zmem tag (nc_pat c)) (ch_cons rc)) in
   (tag, map fst l, (if (0 <=? tag)%Z then dec_z tag else [ch_minus]) ++ [58] ++ concat (map snd l)).
 
